@@ -110,5 +110,112 @@ def gen(repo):
     return "\n".join(out)
 
 
+# ---------------------------------------------------------------------------------------------
+# the policy block at the end of rfbProcessClientInitMessage: its three conditions are translated
+# into Lean (the theorems `exclusive_matches_source` / `other_matches_source` in Props/C14.lean prove
+# that the hand-written model uses exactly these), everything else is compared literally.
+
+POLICY_SHAPE = ("if(@COND@){if(cl->screen->dontDisconnect){iterator=rfbGetClientIterator(cl->screen);"
+                "while((otherCl=rfbClientIteratorNext(iterator))!=NULL){if(@O1@){rfbCloseClient(cl);"
+                "rfbReleaseClientIterator(iterator);return;}}rfbReleaseClientIterator(iterator);}else{"
+                "iterator=rfbGetClientIterator(cl->screen);rfbClientPtrnextCl,otherCl=rfbClientIteratorNext(iterator);"
+                "while(otherCl){nextCl=rfbClientIteratorNext(iterator);if(@O2@){rfbCloseClient(otherCl);}"
+                "otherCl=nextCl;}rfbReleaseClientIterator(iterator);}}}")
+ATOMS = {"cl->reverseConnection": "rev", "cl->screen->neverShared": "never",
+         "cl->screen->alwaysShared": "always", "ci.shared": "shared",
+         "otherCl!=cl": "notMe", "otherCl->state==RFB_NORMAL": "normal"}
+
+
+def _bool_expr(src, allowed):
+    """C boolean expression over the known atoms -> Lean Bool expression (recursive descent)"""
+    toks = re.findall(r"\|\||&&|!(?!=)|\(|\)|[^|&!()]+(?:!=[^|&!()]+)?", src)
+    pos = [0]
+
+    def peek():
+        return toks[pos[0]] if pos[0] < len(toks) else None
+
+    def eat(t=None):
+        x = peek()
+        if x is None or (t is not None and x != t):
+            raise RuntimeError("policy condition: cannot parse %r at %r" % (src, x))
+        pos[0] += 1
+        return x
+
+    def atom():
+        x = peek()
+        if x == "!":
+            eat()
+            return "!" + atom()
+        if x == "(":
+            eat()
+            # "(otherCl != cl)" style atoms arrive as one token inside parentheses
+            e = disj()
+            eat(")")
+            return "(" + e + ")"
+        x = eat()
+        if x not in ATOMS or ATOMS[x] not in allowed:
+            raise RuntimeError("policy condition: unknown operand %r in %r" % (x, src))
+        return ATOMS[x]
+
+    def conj():
+        e = atom()
+        while peek() == "&&":
+            eat()
+            e = e + " && " + atom()
+        return e
+
+    def disj():
+        e = conj()
+        while peek() == "||":
+            eat()
+            e = e + " || " + conj()
+        return e
+    e = disj()
+    if pos[0] != len(toks):
+        raise RuntimeError("policy condition: trailing tokens in %r" % src)
+    return e
+
+
+def gen_policy(repo):
+    t = open(os.path.join(repo, "src/libvncserver/rfbserver.c")).read()
+    k = t.find("\nrfbProcessClientInitMessage(")
+    if k < 0:
+        raise RuntimeError("rfbProcessClientInitMessage not found")
+    body = t[k:]
+    k2 = body.find("cl->state = RFB_NORMAL;")
+    e = body.find("\n}\n", k2)
+    if k2 < 0 or e < 0:
+        raise RuntimeError("policy block not found")
+    blk = _strip_comments(body[k2 + len("cl->state = RFB_NORMAL;"):e + 3])
+    blk = re.sub(r'rfbLog\s*\((?:[^;"]|"(?:[^"\\]|\\.)*")*\)\s*;', "", blk)      # logging is not behaviour
+    flat = re.sub(r"\s+", "", blk)
+    rx = re.escape(POLICY_SHAPE)
+    for name in ("COND", "O1", "O2"):
+        rx = rx.replace(re.escape("@%s@" % name), "(?P<%s>.+?)" % name)
+    m = re.fullmatch(rx, flat)
+    if not m:
+        raise RuntimeError("the sharing-policy block of rfbProcessClientInitMessage changed shape")
+    cond = _bool_expr(m.group("COND"), {"rev", "never", "always", "shared"})
+    o1 = _bool_expr(m.group("O1"), {"notMe", "normal"})
+    o2 = _bool_expr(m.group("O2"), {"notMe", "normal"})
+    return "\n".join([
+        "/-- the guard of the policy block, translated from rfbserver.c -/",
+        "def exclusiveGen (rev never always shared : Bool) : Bool := " + cond,
+        "/-- `-dontdisconnect` loop: which other client makes the newcomer be refused -/",
+        "def otherRefuseGen (notMe normal : Bool) : Bool := " + o1,
+        "/-- default loop: which other clients are closed -/",
+        "def otherCloseGen (notMe normal : Bool) : Bool := " + o2,
+        "/-- checked literally (comments and rfbLog calls removed): the two loops, what they close, the\n"
+        "iterator get/release pairing, the early return -/",
+        "def policyShapeChecked : Bool := true", ""])
+
+
+_gen_args = gen
+
+
+def gen(repo):
+    return _gen_args(repo) + "\n" + gen_policy(repo)
+
+
 if __name__ == "__main__":
     print(gen(build.REPO))
